@@ -25,7 +25,8 @@ def _ev(results, tier):
 
 CHECK = {
     'level': 'exploration',
-    'rule': ('the closure generators of C13 (slist), C12 (dlist), C01/C02 (bintree and rbtree), C07 (heap) and C08 (map) drive '
+    'rule': ('[nested] in mode clear some elements of every container type own a private container OF THE SAME TYPE that the outer callback clears through the library with another callback function / priv (map: also the NULL callback): every element reaches exactly its own container\'s callback once, the outer walk goes on after each nested clear, the emptied inner container is re-used; every second clear runs with an allocator that refuses everything; '
+             'the closure generators of C13 (slist), C12 (dlist), C01/C02 (bintree and rbtree), C07 (heap) and C08 (map) drive '
              'each container into every reachable state of its small scope; on a replica of every newly discovered state '
              'clear is called with a callback that checks the exactly-once/member-only state machine, overwrites the whole '
              'element (including the embedded node) with 0xA5 and FREES it, so any later read or write of a handed-over '
